@@ -129,11 +129,19 @@ func fillValue(r *RNG, f reflect.Value, origLeaf reflect.Type) (text string) {
 	case reflect.Ptr:
 		if t.Elem().Kind() == reflect.String && origLeaf != nil {
 			txt, w := genEnvValue(r, origLeaf)
+			replaced := false
 			if strings.ContainsRune(txt, 0) {
-				txt = "x"
+				txt, replaced = "x", true
 			}
 			if w == "" && hasExternalText(origLeaf) {
 				c10ExtBad = true
+			}
+			if w == "" {
+				c10AnyInvalid = true
+			}
+			c10LastWant = w
+			if replaced {
+				c10LastWant = "" // no expectation for the substitute text
 			}
 			f.Set(reflect.ValueOf(&txt))
 			return txt
@@ -404,7 +412,9 @@ func checkC10(c *Ctx) {
 		c10TUText = strings.Contains(kinds, "textunmarshaler") && (strings.Contains(T.String(), "time.Time") || strings.Contains(T.String(), "tuPtr"))
 		for round := 0; round < 2; round++ {
 			val := reflect.New(TT).Elem()
-			c10ExtBad = false
+			c10ExtBad, c10AnyInvalid = false, false
+			envNonCanonOK, envNonCanon = true, false
+			castWants := map[int]string{}
 			var entries []string
 			nfilled := 0
 			if round == 1 {
@@ -424,8 +434,12 @@ func checkC10(c *Ctx) {
 							orig = reflect.TypeOf("")
 						}
 					}
+					c10LastWant = ""
 					txt := fillValue(r, val.Field(k), orig)
 					nfilled++
+					if stringCast && c10LastWant != "" && val.Field(k).Kind() == reflect.Ptr && val.Field(k).Type().Elem().Kind() == reflect.String {
+						castWants[k] = c10LastWant
+					}
 					if stringCast {
 						sl, mp := tokenStreams(txt)
 						e := []string{"E", hexEnc(fmt.Sprintf("f%d", k)), hexEnc(txt), strconv.Itoa(len(sl))}
@@ -465,7 +479,14 @@ func checkC10(c *Ctx) {
 			}
 			cs2 := map[string]any{"type": cs["type"], "chain": specs, "filled": fill}
 			res.Count(fmt.Sprintf("reverse/round%d/%s", round, strings.SplitN(impl, " ", 2)[0]))
-			if extBadText(entries) || (c10TUText && impl == "err") {
+			envNonCanonOK = false
+			if round == 1 && impl == "err" && !c10AnyInvalid && !c10TUText && len(castWants) > 0 && strings.HasPrefix(model, "ok") {
+				// oracle: every text written to a string-cast field is a valid text of its leaf's type, so the
+				// conversion back must succeed (the model, which is proved to succeed there, agrees)
+				cs2["request"] = req
+				res.Add(Finding{Kind: "violation", What: "every filled string-cast field holds a valid text of its leaf type, but ReverseTranslate failed: " + fmt.Sprint(cs["error"]), Case: cs2, Observed: impl})
+			}
+			if extBadText(entries) || envNonCanon || (c10TUText && impl == "err") {
 				res.OutOfDomain++
 			} else if strings.TrimSpace(impl) != model {
 				cs2["request"] = req
@@ -511,6 +532,13 @@ func checkC10(c *Ctx) {
 						res.Add(Finding{Kind: "violation", What: fmt.Sprintf("translated field %s was filled (%s), but the original leaf %s is unset (nil) after ReverseTranslate", TT.Field(fi).Name, tfValC10(fv), path), Case: cs2, Observed: impl})
 						break
 					}
+					if w, ok := castWants[fi]; ok && !c10TUText && leaf.Type() != fv.Type() {
+						// a string-cast field: the leaf holds the value its text stands for
+						if got := tfVal(leaf); strings.TrimPrefix(got, "& ") != strings.TrimPrefix(w, "& ") {
+							res.Add(Finding{Kind: "violation", What: fmt.Sprintf("string-cast field %s was filled with a valid text, but the original leaf %s holds a different value after ReverseTranslate", TT.Field(k).Name, path), Case: cs2, Expected: w, Observed: got})
+							break
+						}
+					}
 					if leaf.Type() != fv.Type() {
 						continue // a type-changing mangler (string cast, set->slice, substitution, text) converted it: model-checked
 					}
@@ -529,6 +557,11 @@ func checkC10(c *Ctx) {
 // c10ExtBad: a deliberately unparsable float / complex / duration text was filled in: strconv and
 // time.ParseDuration are external to the model, which carries such texts as they are
 var c10ExtBad bool
+
+// c10AnyInvalid: some text filled in for a string-cast field is not a valid text of its leaf type;
+// c10LastWant: the expected rendering of the leaf value for the text fillValue produced last ("" = invalid)
+var c10AnyInvalid bool
+var c10LastWant string
 
 func extBadText(entries []string) bool { return c10ExtBad }
 
